@@ -79,6 +79,29 @@ PROPS = {
                    "external: strconv.ParseFloat (supplied per case from the standard library); float32(x)/float64(n) hardware conversions have executable models (toF32, ofInt) validated by the stream"],
   "assumptions": ["64-bit platform (Go int = int64)"],
  },
+ "C10": {
+  "module": "Zog.Props.C10",
+  "theorems": [P + "C10." + t for t in ["get_append", "inv_add", "issue_map_well_formed", "root_key", "nonroot_key", "render_is_joinSpec", "key_source_tag_first", "key_zog_tag_next", "key_schema_key_last", "key_validate", "issue_path_override", "sanitize_keys", "sanitize_list_length", "sanitize_get"]],
+  "streams": [st("path", 3000, 200000), eng(2500, 100000)],
+  "trusted_base": ["modelled, not verified: lean/Zog/Path.lean mirrors internals/PathBuilder.go String and internals/Issues.go ErrsMap.Add; keyFor mirrors internals/DataProviders.go GetKeyFromField"] + ENGINE_TB,
+  "assumptions": ["no issue is addressed to the reserved key `$first` (IssuePath(\"$first\") is outside the property)"] + ENGINE_ASSUME,
+ },
+ "C11": {
+  "module": "Zog.Props.C11",
+  "theorems": [P + "C11." + t for t in ["catalogue_complete_en", "catalogue_complete_es", "catalogue_complete_default", "catalogue_described", "catalogue_well_formed", "no_value_placeholder", "test_message_wins", "exec_formatter_next", "global_formatter_last", "issue_of_test_described", "i18n_uses_ctx_lang", "i18n_default_lang"]],
+  "streams": [st("msg", 1, 1), eng(2500, 100000, "fmt")],
+  "trusted_base": ["regenerated on every run (run-time dump of the compiled maps and of every built-in test): lean/Zog/Gen/Tables.lean, lean/Zog/Gen/Catalogue.lean",
+                   "modelled, not verified: lean/Zog/Msg.lean mirrors conf/issueFormatConf.go NewDefaultFormatter and i18n/i18n.go; strings.ReplaceAll and fmt %v are external"] + ENGINE_TB,
+  "assumptions": ["Custom schemas are outside the catalogue (no built-in tests, no shipped templates)"],
+ },
+ "C20": {
+  "module": "Zog.Props.C20",
+  "theorems": [P + "C20." + t for t in ["lenMin_spec", "lenMax_spec", "lenEq_spec", "len_spec", "len_boundaries", "cmpInt_spec", "cmp_other_type", "float_specials", "oneOf_spec", "sliceContains_spec", "hasPrefix_spec", "hasSuffix_spec", "contains_spec", "containsUpper_spec", "containsDigit_spec", "special_ranges_are_punct", "containsSpecial_spec", "non_ascii_not_special", "time_zone_ignored", "time_spec", "uuid_length"]],
+  "streams": [st("preds", 1500, 60000)],
+  "trusted_base": ["modelled, not verified: lean/Zog/Preds.lean mirrors the predicate inside every built-in test (internals/tests.go, string.go, time.go, slices.go)",
+                   "external: Go regexp (Email/UUID regex vs the recognisers isEmail/isUUID is validated by the exhaustive stream, not proved), net/url (URL) and user regexps (Match) are compared with the standard library called directly"],
+  "assumptions": ["strings are valid UTF-8 (Lean String)"],
+ },
  "C19": {
   "module": "Zog.Props.C19",
   "theorems": COMMON + [P + "C19." + t for t in ["no_schema_writes", "validate_prim_frame", "second_run_same", "slice_default_is_copied"]],
